@@ -102,6 +102,7 @@ func c14Cases() []c14Prog {
 	tree("component-args-printed", map[string]string{"index.tw": `@component("c", {a: 1, b: 2, c: 3})`, "c.tw": "{{ a }}{{ b }}{{ c }}"}, "index", nil)
 	tree("component-arg-shadow-and-failing", map[string]string{"index.tw": `{{ b = "s" }}@component("c", {a: zz, b: 5, loop: 1})`, "c.tw": "c"}, "index", nil)
 	tree("two-undefined-inserts", map[string]string{"index.tw": "@use(\"lay\")@insert(\"x\", \"1\")\n@insert(\"y\", \"2\")", "lay.tw": `<l>@reserve("a")</l>`}, "index", nil)
+	tree("two-undefined-inserts-one-line", map[string]string{"index.tw": `@use("lay")@insert("footer", "1")@insert("sidebar", "2")@insert("b", "3")`, "lay.tw": `<l>@reserve("a")</l>`}, "index", nil)
 	tree("three-undefined-inserts", map[string]string{"index.tw": "@use(\"lay\")@insert(\"x\", \"1\")\n@insert(\"y\", \"2\")\n@insert(\"a\", \"ok\")\n@insert(\"w\")W@end", "lay.tw": `<l>@reserve("a")</l>`}, "index", nil)
 	tree("inserts-and-reserves", map[string]string{"index.tw": `@use("lay")@insert("x", "1")@insert("y", "2")@insert("z", "3")`, "lay.tw": `@reserve("z")@reserve("y")@reserve("x")`}, "index", nil)
 	tree("two-duplicate-slots", map[string]string{"index.tw": `@component("c")@slot("p")1@end@slot("q")2@end@slot("p")3@end@slot("q")4@end@end`, "c.tw": `@slot("p")@slot("q")`}, "index", nil)
